@@ -205,6 +205,13 @@ pub fn eval_model(req: &str) -> ImplOut {
     if n_err > 0 {
         out = out.tag("history:with-failed-op");
     }
+    if !wf && f[0] == "c27" {
+        // C27 evaluated directly on the implementation: names valid + unique ignoring case, ids unique
+        out = out.fail(
+            "c27:sheet-names-or-ids-not-well-formed",
+            &format!("after some command of this history the sheet names/ids were not well-formed ;; replay: {req}"),
+        );
+    }
     out
 }
 
